@@ -293,7 +293,7 @@ def step(ctx, case):
                 ctx.check('C03 never resurrected', not o.alive)
                 if exp_destroyed is None or o is not exp_destroyed.real:
                     ctx.check('C03 frame: destruction time of a dead object unchanged', o.destroy_time == dt)
-    ctx.check('display stays the only incarnation of id 1', conn.db.get(1) == [conn.display] and conn.display.alive and conn.wl_display() is conn.display)
+    ctx.check('display stays the only incarnation of id 1', list(conn.db.get(1) or []) == [conn.display] and conn.display.alive and conn.wl_display() is conn.display)
 
 
 def long_reuse(ctx, case):
@@ -571,8 +571,8 @@ def make_obligations(pid, tier):
                'bind with other than 4 arguments) are assumed away; floating-point times (integers used); more table ids / incarnations / arguments than the bound')
     extra = [Ob('destruction-annotation', 'symx', 'rendered delete_id line: annotated with exactly the destroyed incarnation and lifespan, no other line annotated (client and server side logs, id reuse, zero and long lifespans)',
                 FUNCS + ['core.wl.message:Message.__str__'], '2 sides x 3 creation times x 4 lifespans x creator first or not x id reused before or not', annotation, cases=[None])] if pid == 'C03' else []
-    extra += [Ob('long-reuse', 'symx', 'one id handed out up to 703 times (client id with delete_id in between, or server-range id reused freely): incarnation index and letters of every creation and mention',
-                 FUNCS, 'id symbolic in the client resp. server range; 27, 28, 53 and 703 creations', long_reuse, cases=[(27, False), (28, True), (53, True), (703, False)] if tier == 'quick' else [(27, False), (27, True), (28, True), (28, False), (53, True), (703, False), (704, True)])] if pid == 'C02' else []
+    extra += [Ob('long-reuse', 'symx', 'one id handed out up to 1100 (4200) times (client id with delete_id in between, or server-range id reused freely): incarnation index and letters of every creation and mention',
+                 FUNCS, 'id symbolic in the client resp. server range; 27, 28, 53, 703 and 1100 (thorough: up to 4200) creations', long_reuse, cases=[(27, False), (28, True), (53, True), (703, False), (1100, True)] if tier == 'quick' else [(27, False), (27, True), (28, True), (28, False), (53, True), (703, False), (704, True), (1100, True), (2100, False), (4200, True)])] if pid == 'C02' else []
     extra += [Ob('creation-on-undescribed-message', 'symx', 'with the shipped descriptions loaded, a new id on a message / at a position the description of a known interface lacks still creates its object', FUNCS + ['core.wl.protocol:get_arg'],
                  '3 message shapes x 2 directions, through the real decoder', undescribed, cases=[None])] if pid == 'C02' else []
     extra += [Ob('log-histories', 'symx', 'well-formed histories of log lines (ids 2, 3 and a server-range id; create as registry/callback, mention, delete_id, re-use) through the real decoder, line loop, manager and display vs a reference table',
